@@ -197,7 +197,9 @@ def rule_last_statement(ctx):
             tab = tr.cur.attrs.get(R().table)
             fetched_after = getattr(tab, "attrs", {}).get("of_call")
             ok_fetch = isinstance(fetched_after, Const) and fetched_after.v == len(tr.engine_sql) - 1
-            ok = last_sql is not None and same_val(last_exec, last_sql) and ok_fetch
+            lp = tr.cur.attrs.get(R().last_params)
+            ok_params = isinstance(lp, Sym) and lp.tag == "params"
+            ok = last_sql is not None and same_val(last_exec, last_sql) and ok_fetch and ok_params
             ctx.ob("C04.d", f"{kind}: collected result belongs to the statement recorded as _last_sql", ok,
                    site_loc(prog, "cursor", site), f"last executed `{text_of(last_exec)[:60]}` vs recorded `{text_of(last_sql)[:60]}`")
             if not ok:
